@@ -81,6 +81,10 @@ def generated_items(seed, tier, bias, scale=1.0):
                 e = f"({e} {rng.choice(gen.BINOPS)} {rng.choice([r, r, 'RtV', '3'])})"
             items.append(dict(name=f"reuse{i}", text=f"{{ int32_t q = {r}; RddV = {e} + q + q; if ({r} > q) {{ ReV = q + {r}; }} }}"))
     if bias == "sorts":
+        # a name declared twice with different types (listed finding flat_local_namespace) and, as controls, with the same type
+        for k, text in enumerate(["{ { int8_t t = RsV; RdV = t; } { uint32_t t = RtV; ReV = t >> 4; } }",
+                                  "{ { int32_t t = RsV; RdV = t; } { int32_t t = RtV; ReV = t; } }", "{ int32_t t = RsV; if (RtV) { int32_t t = 5; RdV = t; } ReV = t; }"]):
+            items.append(dict(name=f"redecl{k}", text=text))
         for name, text in _sample(rng, gen.chained_assignments(rng, False), 40 if tier == "quick" else 200):
             items.append(dict(name="chain:" + name, text=text))
         for k, text in enumerate(["{ RddV = ReV = RsV; }", "{ int64_t a; int32_t b; a = b = RsV; RddV = a; }", "{ ReV = PdV = RsV; }", "{ int8_t a; uint64_t b; RyyV = b = a = RsV; }"]):
